@@ -397,6 +397,25 @@ impl Block {
             return self.tokens.as_mut().unwrap().final_token.as_mut().unwrap();
         }
 
+        // a semicolon written after the last (or only) statement is the last token
+        let has_last_statement = self.last_statement.is_some();
+        let has_semicolon = self.tokens.as_ref().is_some_and(|tokens| {
+            if has_last_statement {
+                tokens.last_semicolon.is_some()
+            } else {
+                matches!(tokens.semicolons.get(self.statements.len() - 1), Some(Some(_)))
+            }
+        });
+        if has_semicolon {
+            let tokens = self.tokens.as_mut().unwrap();
+            return if has_last_statement {
+                tokens.last_semicolon.as_mut().unwrap()
+            } else {
+                let index = self.statements.len() - 1;
+                tokens.semicolons[index].as_mut().unwrap()
+            };
+        }
+
         if let Some(last_stmt) = self.last_statement.as_mut() {
             return last_stmt.mutate_last_token();
         }
